@@ -452,21 +452,44 @@ def writer_harness(I: Interp) -> None:
         models.CLASS_MODELS[lg._PenlogRecordV2] = lambda I2, cls, a, k, m=made: (
             m.append(k), VObj(Stub, {}, lazy=True, tag="penlog"))[1]
         models.MODELS[lg.dataclasses.asdict] = lambda I2, a, k: VDict([])
-        models.MODELS[lg.json.dumps] = lambda I2, a, k: VStr("{}")
+        dumps_kw: list[dict] = []
+        models.MODELS[lg.json.dumps] = lambda I2, a, k, d=dumps_kw: (d.append(k), VStr("{}"))[1]
         rec2 = VObj(Stub, {"levelno": wrap_enum(lv_), "exc_info": NONE, "name": VStr("m"),
                            "created": VFloat(0.0), "pathname": VStr("p"), "lineno": VInt(1),
                            "levelname": VStr(lv_.name), "funcName": VStr("f"),
                            "__dict__": VDict([])}, lazy=True, tag="record")
         I.ex.stubs[("record", "getMessage")] = lambda I2, r, a, k: VStr("msg")
-        models.MODELS[lg.datetime.datetime.fromtimestamp] = lambda I2, a, k: VObj(
-            Stub, {}, lazy=True, tag="dt")
-        I.ex.stubs[("dt", "isoformat")] = lambda I2, r, a, k: VStr("t")
+        # datetime contract: fromtimestamp(t, tz) / now(tz) / astimezone() give an *aware* value,
+        # whose isoformat() carries the UTC offset; without tz the value is naive local time
+        iso: list[bool] = []
+
+        def mk_dt(I2: Interp, a: list[V], k: dict[str, V], tzpos: int) -> V:
+            tzv = k.get("tz", a[tzpos] if len(a) > tzpos else NONE)
+            return VObj(Stub, {"aware": VBool(tzv is not NONE)}, lazy=True, tag="dt")
+        models.MODELS[lg.datetime.datetime.fromtimestamp] = lambda I2, a, k: mk_dt(I2, a, k, 1)
+        models.MODELS[lg.datetime.datetime.now] = lambda I2, a, k: mk_dt(I2, a, k, 0)
+        models.MODELS[lg.datetime.datetime.utcfromtimestamp] = lambda I2, a, k: VObj(
+            Stub, {"aware": VBool(False)}, lazy=True, tag="dt")
+        I.ex.stubs[("dt", "astimezone")] = lambda I2, r, a, k: VObj(
+            Stub, {"aware": VBool(True)}, lazy=True, tag="dt")
+        I.ex.stubs[("dt", "replace")] = lambda I2, r, a, k: VObj(
+            Stub, {"aware": VBool(k.get("tzinfo", NONE) is not NONE) if "tzinfo" in k
+                   else r.fields["aware"]}, lazy=True, tag="dt")
+        I.ex.stubs[("dt", "isoformat")] = lambda I2, r, a, k, iso=iso: (
+            iso.append(r.fields["aware"].concrete() is True), VStr("t"))[1]
         f = VObj(lg._JSONFormatter, {"hostname": VStr("h")})
         try:
             I.call_v(I.getattr_v(f, "format"), [rec2], {})
             pr = made[0].get("priority") if made else None
             I.prove(f"W-json-priority-field-is-{want}-for-{lv_.name}",
                     models.as_int(I, pr) == want if pr is not None else z3.BoolVal(False))
+            if lv_.name == "INFO":
+                I.prove("W-record-time-is-an-aware-datetime(its-text-carries-the-UTC-offset)",
+                        z3.BoolVal(iso == [True]), f"isoformat() on aware values: {iso}")
+                ea = [kw.get("ensure_ascii") for kw in dumps_kw]
+                I.prove("W-serialised-record-is-ASCII(json.dumps-escapes-so-encode()-cannot-fail)",
+                        z3.BoolVal(len(ea) == 1 and (ea[0] is None or (
+                            isinstance(ea[0], VBool) and ea[0].concrete() is True))), str(ea))
         except PyExc as e:
             I.fail(f"W-format-does-not-raise({lv_.name})", e.exc.cls.__name__)
         finally:
@@ -561,6 +584,29 @@ def native_writer() -> tuple[bool, str]:
     return bad is not None, bad or "filtering on the line prefix equals filtering on the field"
 
 
+def native_formatter() -> tuple[bool, str]:
+    """the real formatter: the record's time must parse as an aware datetime, and a message with
+    a lone surrogate (undecodable file name) must still yield an encodable line"""
+    import datetime as _dt
+    import json
+    import logging
+    lg = L()
+    f = lg._JSONFormatter()
+    rec = logging.LogRecord("c17", int(lg.Loglevel.INFO), "p.py", 1, "name=%s", ("a\udcffb",),
+                            None, "fn")
+    line = f.format(rec)
+    try:
+        line.encode()
+    except UnicodeEncodeError as e:
+        return True, (f"a log message with a lone surrogate gives a line that cannot be encoded "
+                      f"({e.reason}): the log listener dies and later records are lost")
+    when = json.loads(line)["datetime"]
+    if _dt.datetime.fromisoformat(when).tzinfo is None:
+        return True, (f"record time {when!r} has no UTC offset: read back under another time "
+                      f"zone it denotes a different instant")
+    return False, f"line encodable, time {when} is aware"
+
+
 def native_empty_log() -> tuple[bool, str]:
     """A log without records (plain and .zst): it opens, has length 0 and every walk is empty."""
     import shutil
@@ -637,6 +683,8 @@ def native_replay(unit: str, obligation: str, model: dict) -> tuple[bool, str]:
     import tempfile
     from pathlib import Path
     lg = L()
+    if unit.startswith("writer/") and ("aware-datetime" in obligation or "is-ASCII" in obligation):
+        return native_formatter()
     if unit.startswith("writer/"):
         return native_writer()
     if unit in ("reader/open", "reader/records-reverse-empty-log"):
